@@ -1,7 +1,7 @@
 (* Property C01 - only statements, each closed by [exact].  (partial: see manifest.d/C01.json) *)
 From Coq Require Import ZArith List Bool String.
 Import ListNotations.
-Require Import UV.C01.Model UV.Gen.Stubs UV.C01.MachineProofs UV.C01.StubTheorems UV.C01.ArchCtxProofs UV.C01.Proofs UV.C01.ShadowProofs.
+Require Import UV.C01.Model UV.Gen.Stubs UV.C01.MachineProofs UV.C01.StubTheorems UV.C01.ArchCtxProofs UV.C01.Proofs UV.C01.ShadowProofs UV.C01.ShadowRecover.
 Local Open Scope Z_scope.
 
 (* ---- (i) the assembly stubs, as generated from arch/x86_64/*.S of the current tree ----
@@ -151,6 +151,25 @@ Theorem C01_checker_accepts_model : forall c, no_recover c = true ->
   ok_returns c (snd (run_ops st0 (full 1%nat c))) = true.
 Proof. exact checker_accepts_model. Qed.
 Print Assumptions C01_checker_accepts_model.
+
+(* the `recover` trigger (mcount_rstack_restore / mcount_rstack_rehook over ALL frames at the entry / exit of a
+   function): for every call tree whose hooks are -pg/fentry/dynamic entries - plain and `recover` ones in any
+   mix, nested, in tail-call chains, with unhooked activations in between - every return goes to its real
+   caller.  [Inv2]: every chain of the shadow stack has its slot holding the trampoline or the real address its
+   oldest frame saved; the innermost chain's slot holds the trampoline. *)
+Theorem C01_returns_to_real_caller_recover : forall c d s,
+  (1 <= d)%nat -> only_pg c = true -> Inv2 s -> Forall (fun f => (floc f < d)%nat) (rs s) ->
+  exists s' outs, run_ops s (full d c) = (s', outs) /\
+                  targets outs = map Some (native c) /\
+                  rs s' = rs s /\ Inv2 s' /\
+                  (forall l, (l < d)%nat -> notin l (rs s) -> mem s' l = mem s l).
+Proof. exact returns_to_real_caller_recover. Qed.
+Print Assumptions C01_returns_to_real_caller_recover.
+
+Theorem C01_program_returns_recover : forall c, only_pg c = true ->
+  exists s' outs, run_ops st0 (full 1%nat c) = (s', outs) /\ targets outs = map Some (native c) /\ rs s' = [].
+Proof. exact program_returns_recover. Qed.
+Print Assumptions C01_program_returns_recover.
 
 (* tracing is finished (finish trigger / signal in another thread) while frames are open: the exit hook
    that notices it - [exit_stop]: bookkeeping, mtd_dtor restores every slot and drops the shadow stack,
